@@ -246,7 +246,8 @@ func AnalyzePool(p *load.Program, r *Roles, depth int) *UnitResult {
 	}
 
 	// ---- worker ---------------------------------------------------------------
-	closedListen := map[string]bool{} // "tasks"/"done": worker returns when this channel is closed
+	closedListen := map[string]bool{}            // "tasks"/"done": worker returns when this channel is closed
+	blockListens := map[string]map[string]bool{} // blocking point (position) -> pool channels it listens on
 	var workerFn *ssa.Function
 	// the worker is the callee of the only go statement (found below); locate it first
 	goSites := 0
@@ -324,10 +325,29 @@ func AnalyzePool(p *load.Program, r *Roles, depth int) *UnitResult {
 					chk(c, "C08.R2", con("receive"), false, ev, "the worker polls (select with default) instead of blocking")
 				}
 				chk(c, "C12.R4", con("receive"), listens && ev.Class == "blocking", ev, "a blocking point of the worker does not listen on the pool's task/done channels")
+				{
+					set := blockListens[posStr(ev.Pos)]
+					if set == nil {
+						set = map[string]bool{}
+						blockListens[posStr(ev.Pos)] = set
+					}
+					for _, cs := range ev.Cases {
+						if !cs.Send && cs.Chan == tasksCh {
+							set["tasks"] = true
+						}
+						if !cs.Send && doneCh != nil && cs.Chan == doneCh {
+							set["done"] = true
+						}
+					}
+				}
 			case "recv":
 				chk(c, "C08.R2", con("receive"), pending == nil, ev, "the worker goes back to receiving while a received task has not been executed (task dropped)")
+				if blockListens[posStr(ev.Pos)] == nil {
+					blockListens[posStr(ev.Pos)] = map[string]bool{}
+				}
 				switch {
 				case ev.Addr == tasksCh:
+					blockListens[posStr(ev.Pos)]["tasks"] = true
 					pending = ev.Results[0]
 					okT = nil
 					if len(ev.Results) > 1 {
@@ -335,6 +355,7 @@ func AnalyzePool(p *load.Program, r *Roles, depth int) *UnitResult {
 					}
 					st = "got-task"
 				case doneCh != nil && ev.Addr == doneCh:
+					blockListens[posStr(ev.Pos)]["done"] = true
 					st = "got-done"
 				default:
 					chk(c, "C12.R4", con("receive"), false, ev, "the worker blocks on "+ev.Addr.Pretty()+", which is not one of the pool's channels")
@@ -524,6 +545,16 @@ func AnalyzePool(p *load.Program, r *Roles, depth int) *UnitResult {
 			if closedListen[n] {
 				stops = true
 			}
+		}
+		// every blocking point of the worker, taken by itself, is woken by something Close closes
+		for site, set := range blockListens {
+			woken := false
+			for n := range set {
+				if closed[n] > 0 {
+					woken = true
+				}
+			}
+			col.CheckAt("C12.R6", "WorkerPool.worker:woken-by-close", woken, site, fmt.Sprintf("the worker can block here listening only on %v while Close closes %v: a worker waiting at this point is never released (goroutine leak)", keysOfB(set), keysOf(closed)), nil)
 		}
 		col.Check("C12.R6", "WorkerPool.Close:stops-workers", stops, p.Position(fn.Pos()), fmt.Sprintf("Close closes %v but the worker only returns on %v: workers survive Close", keysOf(closed), keysOfB(closedListen)), nil)
 	}
